@@ -1,6 +1,7 @@
 pub fn glob_to_regex(glob: &str) -> regex::Regex {
     let mut it = glob.chars();
-    let mut r = "^".to_string();
+    // ('*' and '?' match any character, a line feed included)
+    let mut r = "(?s)^".to_string();
 
     while let Some(c) = it.next() {
         r.push_str(
